@@ -696,3 +696,25 @@ Proof.
   apply B. intros q Hq X. apply (Hfree q Hq).
   rewrite !(run_map_position nq c c1) by assumption. exact X.
 Qed.
+
+(* packaged statements used by Properties/C03.v *)
+Lemma new_qubits_full nq c : wf_circ nq c = true ->
+  new_qubits nq c =
+    flat_map (fun q => seq (nq + sum_below (cut_freq c) q) (cut_freq c q) ++ [q]) (seq 0 nq)
+  /\ length (new_qubits nq c) = nq + count_markers c
+  /\ filter (fun t => t <? nq) (new_qubits nq c) = seq 0 nq
+  /\ forall q, q < nq -> index_of q (new_qubits nq c) = Some (final_position c q).
+Proof.
+  intros W. split; [exact (new_qubits_spec nq c)|]. split; [exact (new_qubits_length nq c W)|].
+  split; [|exact (fun q => index_of_new_qubits nq c q)].
+  rewrite new_qubits_spec. apply blocks_originals; lia.
+Qed.
+
+Lemma transform_fields fac nq nc qregs cregs c :
+  let r := transform_cut_wires fac nq nc qregs cregs c in
+  cr_qubits r = new_qubits nq c /\ cr_qregs r = qregs /\ cr_nclbits r = nc /\ cr_cregs r = cregs /\
+  cr_data r = cut_wires_gen fac nq c.
+Proof.
+  cbn zeta. unfold transform_cut_wires, new_qubits, cut_wires_gen.
+  destruct (structure_mapping nq c). cbn. repeat split.
+Qed.
